@@ -19,6 +19,7 @@ import (
 	"github.com/LemoFoundationLtd/lemochain-core/chain/types"
 	"github.com/LemoFoundationLtd/lemochain-core/common"
 	"github.com/LemoFoundationLtd/lemochain-core/common/crypto"
+	"github.com/LemoFoundationLtd/lemochain-core/common/flag"
 	"github.com/LemoFoundationLtd/lemochain-core/common/rlp"
 	"github.com/LemoFoundationLtd/lemochain-core/store"
 )
@@ -120,6 +121,7 @@ type Node struct {
 	Guard   *txpool.TxGuard
 	DP      *consensus.DPoVP
 	Genesis *types.Block
+	BC      *chain.BlockChain
 	Proc    *transaction.TxProcessor
 	Asm     *consensus.BlockAssembler
 }
@@ -160,23 +162,27 @@ func (w *World) NewNode(dir string) *Node {
 	} else {
 		n.Genesis = chain.SetupGenesisBlock(n.DB, w.Genesis())
 	}
-	stable, err := n.DB.LoadLatestBlock()
+	// the real constructor, so that start-up code (replay-guard reload in initTxPool, ...) is the node's own
+	n.DM = deputynode.NewManager(w.N, n.DB)
+	n.Pool = txpool.NewTxPool()
+	bc, err := chain.NewBlockChain(chain.Config{ChainID: ChainID, MineTimeout: w.TimeoutMs}, n.DM, n.DB, flag.CmdFlags{}, n.Pool)
 	if err != nil {
 		panic(err)
 	}
-	n.DM = deputynode.NewManager(w.N, n.DB)
-	n.AM = account.NewManager(stable.Hash(), n.DB)
-	n.Pool = txpool.NewTxPool()
-	n.Guard = txpool.NewTxGuard(stable.Time())
-	n.Guard.SaveBlock(stable)
-	pl := parentLoader{n.DB}
-	n.DP = consensus.NewDPoVP(consensus.Config{ChainID: ChainID, MineTimeout: w.TimeoutMs, RewardManager: w.Founder}, n.DB, n.DM, n.AM, pl, n.Pool, n.Guard)
-	n.Proc = transaction.NewTxProcessor(w.Founder, ChainID, pl, n.AM, n.DB, n.DM)
+	n.BC = bc
+	n.AM = bc.AccountManager()
+	n.Guard = bc.TxGuard()
+	n.DP = bc.VerifEngine()
+	n.Proc = transaction.NewTxProcessor(w.Founder, ChainID, bc, n.AM, n.DB, n.DM)
 	n.Asm = consensus.NewBlockAssembler(n.AM, n.DM, n.Proc, n.DP)
 	return n
 }
 
 func (n *Node) Close() {
+	if n.BC != nil {
+		n.BC.Stop()
+		n.BC = nil
+	}
 	if n.DB != nil {
 		n.DB.Close()
 		n.DB = nil
